@@ -89,6 +89,34 @@ fn main() {
         "selftest-model" => selftest_model(),
         "cold-exec" => cold_exec(&args),
         "c14" => sim::bcrypt::main(&args),
+        "digest-lists" => {
+            // <dir>: execute every explicit operation list in the directory, print name, portable digest, outcome
+            let dir = args.get(2).map(|s| s.as_str()).unwrap_or_else(|| die("digest-lists <dir>"));
+            let reg = sim::registry::build();
+            let anchors = Anchors::compute(&reg);
+            install_quiet_panic_hook();
+            let known = Known::default();
+            let mut names: Vec<String> = std::fs::read_dir(dir).unwrap_or_else(|e| die(&format!("{}: {}", dir, e))).filter_map(|e| e.ok()).map(|e| e.file_name().to_string_lossy().to_string()).filter(|n| n.ends_with(".json")).collect();
+            names.sort();
+            let (from, step): (usize, usize) = (arg(&args, "--offset").and_then(|s| s.parse().ok()).unwrap_or(0), arg(&args, "--stride").and_then(|s| s.parse().ok()).unwrap_or(1));
+            for n in names.iter().skip(from).step_by(step.max(1)) {
+                let text = std::fs::read_to_string(format!("{}/{}", dir, n)).unwrap_or_else(|e| die(&format!("{}: {}", n, e)));
+                let v: Value = serde_json::from_str(&text).unwrap_or_else(|e| die(&format!("{}: {}", n, e)));
+                let l = load_replay(&reg, &v).unwrap_or_else(|e| die(&e));
+                let r = execute_mode(&reg, &anchors, &l.cfg, &l.ops, l.seed, None, &known, false);
+                println!("{} {:016x} steps={} viol={}", n, r.h_portable, r.stats.steps, r.violation.as_ref().map(|v| v.signature()).unwrap_or_else(|| "-".into()));
+            }
+        }
+        "c14-export" => {
+            let seed: u64 = arg(&args, "--seed").and_then(|s| s.parse().ok()).unwrap_or(20261003);
+            let count: u64 = arg(&args, "--count").and_then(|s| s.parse().ok()).unwrap_or(8);
+            let max_ops: usize = arg(&args, "--max-ops").and_then(|s| s.parse().ok()).unwrap_or(8);
+            let out = arg(&args, "--out").unwrap_or_else(|| die("--out <dir>"));
+            std::fs::create_dir_all(out).unwrap_or_else(|e| die(&format!("{}: {}", out, e)));
+            for (i, l) in sim::bcrypt::export_lists(seed, count, max_ops).iter().enumerate() {
+                std::fs::write(format!("{}/C14-{}-{}.json", out, seed, i), serde_json::to_string(l).unwrap()).unwrap_or_else(|e| die(&format!("write: {}", e)));
+            }
+        }
         "c16" => sim::residue::main(&args),
         _ => die("unknown subcommand"),
     }
@@ -153,6 +181,7 @@ fn worker(args: &[String]) {
     j["anchor_digest"] = json!(format!("{:016x}", anchors.digest));
     j["anchor_table"] = anchor_table_json(&reg, &anchors);
     j["anchor_order"] = json!(order);
+    j["build"] = json!(sim::engine::build_label());
     j["anchors"] = json!(anchors.entries.len());
     let s = cpufeatures::sim::stats();
     j["seam"] = json!({"detect_calls": s.detect_calls, "masked_decisions": s.masked_decisions, "cache_hits": s.cache_hits,
@@ -189,10 +218,17 @@ fn check(args: &[String]) {
     let _ = std::fs::create_dir_all(&tmp);
     let exe = std::env::current_exe().unwrap();
     println!("sim-native check property={} tier={} VERIF_SEED={} runs={} workers={}", prop.name(), tier, seed, total, workers);
+    // a second build of the same simulator (host SIMD target features enabled at compile time): a quarter of the
+    // workers run it, so that code selected by `cfg(target_feature = ..)` meets every oracle too
+    let alt_exe: Option<std::path::PathBuf> = arg(args, "--alt-bin").map(std::path::PathBuf::from).filter(|p| p.is_file());
+    let mut alt_runs = 0u64;
     let mut kids = Vec::new();
     for w in 0..workers {
         let df = format!("{}/{}-digests-{}.bin", tmp, prop.name(), w);
-        let c = Command::new(&exe)
+        let use_alt = alt_exe.is_some() && workers >= 4 && w % 4 == 3;
+        let wexe = if use_alt { alt_exe.clone().unwrap() } else { exe.clone() };
+        let c = Command::new(&wexe)
+            .env("VERIF_BUILD_LABEL", if use_alt { "tf" } else { "" })
             .args(["worker", "--prop", prop.name(), "--seed", &seed.to_string(), "--total", &total.to_string()])
             .args(["--stride", &workers.to_string(), "--offset", &w.to_string(), "--budget-s", &budget.to_string()])
             .args(["--replay-dir", &replay_dir, "--known", &known_path, "--digest-file", &df])
@@ -202,7 +238,7 @@ fn check(args: &[String]) {
             .stderr(Stdio::piped())
             .spawn()
             .unwrap_or_else(|e| die(&format!("spawn worker: {}", e)));
-        kids.push((w, df, c));
+        kids.push((w, df, c, wexe));
     }
     let mut stats = Stats::default();
     let mut runs = 0u64;
@@ -214,12 +250,14 @@ fn check(args: &[String]) {
     let mut herr: Vec<String> = Vec::new();
     let mut anchor_digests: Vec<String> = Vec::new();
     let mut anchor_tables: Vec<(Option<u64>, serde_json::Map<String, Value>)> = Vec::new();
+    let mut alt_anchor_digests: Vec<String> = Vec::new();
+    let mut alt_anchor_tables: Vec<(Option<u64>, serde_json::Map<String, Value>)> = Vec::new();
     let mut digests: Vec<u64> = Vec::new();
     let mut inter: Vec<u64> = Vec::new();
     let mut seam = json!({});
     let mut seam_tot: HashMap<String, u64> = HashMap::new();
     let mut portable_xor = 0u64;
-    for (w, df, c) in kids {
+    for (w, df, c, wexe) in kids {
         let out = c.wait_with_output().unwrap_or_else(|e| die(&format!("wait worker: {}", e)));
         let so = String::from_utf8_lossy(&out.stdout).to_string();
         let line = so.lines().last().unwrap_or("");
@@ -233,7 +271,7 @@ fn check(args: &[String]) {
                 let (ri, rs) = (it.next().and_then(|x| x.parse::<u64>().ok()), it.next().and_then(|x| x.parse::<u64>().ok()));
                 let tail = String::from_utf8_lossy(&out.stderr).lines().rev().take(3).collect::<Vec<_>>().join(" | ");
                 match (ri, rs) {
-                    (Some(ri), Some(rs)) => match died_run(&exe, prop, rs, ri, seed, &replay_dir, &known_path, &tmp, &tail) {
+                    (Some(ri), Some(rs)) => match died_run(&wexe, prop, rs, ri, seed, &replay_dir, &known_path, &tmp, &tail) {
                         Some(v) => violations.push(v),
                         None => herr.push(format!("worker {} ended abnormally in run {} (seed {}) but the run does not die when repeated alone: status {:?}; {}", w, ri, rs, out.status, tail)),
                     },
@@ -264,9 +302,18 @@ fn check(args: &[String]) {
         for e in j["harness_errors"].as_array().cloned().unwrap_or_default() {
             herr.push(e.as_str().unwrap_or("").to_string());
         }
-        anchor_digests.push(j["anchor_digest"].as_str().unwrap_or("").to_string());
-        if let Some(t) = j["anchor_table"].as_object() {
-            anchor_tables.push((j["anchor_order"].as_u64(), t.clone()));
+        let wbuild = j["build"].as_str().unwrap_or("").to_string();
+        if wbuild.is_empty() {
+            anchor_digests.push(j["anchor_digest"].as_str().unwrap_or("").to_string());
+            if let Some(t) = j["anchor_table"].as_object() {
+                anchor_tables.push((j["anchor_order"].as_u64(), t.clone()));
+            }
+        } else {
+            alt_runs += j["runs"].as_u64().unwrap_or(0);
+            alt_anchor_digests.push(j["anchor_digest"].as_str().unwrap_or("").to_string());
+            if let Some(t) = j["anchor_table"].as_object() {
+                alt_anchor_tables.push((j["anchor_order"].as_u64(), t.clone()));
+            }
         }
         portable_xor ^= u64::from_str_radix(j["portable_xor"].as_str().unwrap_or("0"), 16).unwrap_or(0);
         if let Some(o) = j["seam"].as_object() {
@@ -430,6 +477,31 @@ fn check(args: &[String]) {
             herr.push(format!("anchor tables differ between worker processes: {:?}", anchor_digests));
         }
     }
+    // the same tables in the other build of the simulator: among themselves (orders), and against the default build
+    alt_anchor_digests.sort();
+    alt_anchor_digests.dedup();
+    if alt_anchor_digests.len() > 1 {
+        herr.push(format!("anchor tables differ between worker processes of the target-feature build: {:?}", alt_anchor_digests));
+    }
+    if let (Some((_, t0)), Some((_, t1))) = (anchor_tables.first(), alt_anchor_tables.first()) {
+        for (k, v) in t0 {
+            if t1.get(k).map(|x| x != v).unwrap_or(false) {
+                let vj = json!({"property": "C03", "class": "cross-build-anchor", "step": 0, "family": "", "variant": "",
+                    "detail": format!("{}: a freshly constructed instance returns other bytes (fixed key and input) when the crate is compiled with the host's SIMD target features enabled (-C target-feature) than in the default build", k),
+                    "expected": "", "got": "", "also_violates": []});
+                let path = format!("{}/{}-cross-build-anchor-{}.json", replay_dir, prop.name(), seed);
+                let _ = std::fs::create_dir_all(&replay_dir);
+                let rj = json!({"format": "block-ciphers-sim-replay/1", "property": "C03", "engine": "cross-build", "entry": k, "violation": vj});
+                let _ = std::fs::write(&path, serde_json::to_string_pretty(&rj).unwrap());
+                if prop == Prop::C03 {
+                    violations.push(json!({"replay": path, "violation": vj}));
+                } else if notes.len() < 12 {
+                    notes.push(format!("note: C03-class divergence (anchor {} differs between the default and the target-feature build), not this check's property", k));
+                }
+                break;
+            }
+        }
+    }
     let wall = t0.elapsed().as_secs_f64();
     let reg = sim::registry::build();
     let variants: Vec<String> = {
@@ -480,6 +552,8 @@ fn check(args: &[String]) {
             },
             "h_portable_xor": format!("{:016x}", portable_xor),
             "cold_start": cold_json,
+            "target_feature_build": {"what": "a second build of the simulator and of every crate with the host's SIMD target features enabled at compile time (so that cfg(target_feature) arms and the statically-detected AES-NI path are the code under test); a quarter of the worker processes run it, its pristine anchor tables are compared with the default build's",
+                "present": alt_exe.is_some(), "runs": alt_runs, "anchor_tables": alt_anchor_tables.len()},
             "cross_process_anchors": {"what": "every worker process computes its pristine anchor table (every type, fixed key and input) in another seeded order of the types; the driver compares the tables entry by entry: a difference means that what a fresh instance returns depends on what ran earlier in the process",
                 "processes": anchor_tables.len(), "entries_per_table": anchor_tables.first().map(|t| t.1.len()).unwrap_or(0), "tables_identical": anchor_digests.len() <= 1},
             "grid": grid_json,
@@ -524,7 +598,20 @@ fn check(args: &[String]) {
         let mut confirmed = 0;
         for v in &violations {
             let path = v["replay"].as_str().unwrap_or("");
-            let st = Command::new(&exe).args(["replay", path, "--known", &known_path]).stdout(Stdio::piped()).status();
+            // the build that recorded the file replays it
+            let rj: Value = std::fs::read_to_string(path).ok().and_then(|t| serde_json::from_str(&t).ok()).unwrap_or(Value::Null);
+            let by_tf = rj.get("build").and_then(|x| x.as_str()) == Some("tf");
+            let st = if rj.get("engine").and_then(|x| x.as_str()) == Some("cross-build") {
+                // both builds' pristine tables, the named entry
+                let entry = rj.get("entry").and_then(|x| x.as_str()).unwrap_or("");
+                let a = spawn_json(&exe, &["anchor-table".to_string()]).ok().and_then(|j| j.get(entry).cloned());
+                let b = alt_exe.as_ref().and_then(|x| spawn_json(x, &["anchor-table".to_string()]).ok()).and_then(|j| j.get(entry).cloned());
+                let differs = a.is_some() && b.is_some() && a != b;
+                Command::new("sh").args(["-c", if differs { "exit 1" } else { "exit 0" }]).status()
+            } else {
+                let rexe = if by_tf { alt_exe.clone().unwrap_or(exe.clone()) } else { exe.clone() };
+                Command::new(&rexe).env("VERIF_BUILD_LABEL", if by_tf { "tf" } else { "" }).args(["replay", path, "--known", &known_path]).stdout(Stdio::piped()).status()
+            };
             match st {
                 Ok(s) if s.code() == Some(1) => {
                     confirmed += 1;
